@@ -69,7 +69,8 @@ CHECKS = {
              "RowKIsSensorK, ZeroWhereNothingNamed; the prediction is ValueError or the geometry (names, which sensor every "
              "re-ordered row is, zero-based indices, mapped and displayed mode-shape values). Every case goes through "
              "check_on_geo1/2, def_geo1/2 on SingleSetup / MultiSetup_PreGER / MultiSetup_PoSER, dfphi_map_func and the Agg "
-             "artists of plot_mode_geo1 / plot_mode_geo2_mpl (sensor k sits at (10k, k, -k) and carries component k+1).",
+             "artists of plot_mode_geo1 / plot_mode_geo2_mpl (sensor k sits at (10k, k, -k) and carries component k+1; the result "
+             "holds two modes and mode number 1 must draw the first).",
         ref="DESIGN.md §4.8, §5 C19, §6",
         note="Trusted: TLC, pandas DataFrames shaped as read_excel(sheet_name=None, index_col=0) returns them (openpyxl is "
              "not installed offline: reading .xlsx itself is outside the claim), matplotlib 3D artist accessors. Name forms "
@@ -248,7 +249,8 @@ CHECKS = {
              "far frequencies, dampings and Gaussian-integer shapes (MAC computed exactly as a rational) and all "
              "placements of [ordmin, ordmax] over 5 columns for both column<->order maps, computes the set of admissible "
              "labels per cell (two only on an exact tie) and checks NeverStable, LabelsDecided, LabelsPure; every case is "
-             "labelled by the real gen.SC_apply and by real SSIcov / pLSCF runs on injected tables.",
+             "labelled by the real gen.SC_apply and by real SSIcov / SSIdat_MS / pLSCF / pLSCF_MS runs on injected tables (the "
+             "single- and multi-setup classes each have their own copy of the labelling call).",
         ref="DESIGN.md §4.5, §5 C10",
         note="Trusted: TLC, harness/poles_world.py. Catalogue values sit >= 10 % away from every tolerance. step = 1.",
         technique="TLC model checking of Poles.tla (Label) + replay of every case through SC_apply and the class runs",
@@ -258,7 +260,7 @@ CHECKS = {
              "unstable poles) and requests (1..3 frequencies; order int, list, find_min) and computes the admissible "
              "answer cells per request; checks Whole, OnlyIfClose, NearestReturned, Minimal; every case is handed to "
              "SSI_mpe, pLSCF_mpe, SSIcov.mpe, pLSCF.mpe and each returned mode must be bit-identical to one admissible "
-             "cell in every attribute (frequency, damping, shape, covariances), reported order included.",
+             "cell in every attribute (frequency, damping, shape, frequency / damping / shape covariances), reported order included.",
         ref="DESIGN.md §4.5, §5 C11",
         note="Trusted: TLC, harness/poles_world.py. Frequencies within rtol/10 of a request or >= 10 rtol away. One "
              "listed known finding (pLSCF_mpe find_min never returns anything; pinned by a baseline test).",
